@@ -95,14 +95,17 @@ class Universe:
         return hashlib.new(self.halg, ("never-stored-%d" % c).encode()).hexdigest()
 
     def _rebuild(self):
-        self.by_cid = {}
+        self.by_cid = dict(getattr(self, "_noted", {}))      # never-stored cids survive the registration of new contents
         self.by_bytes = {}
         for (b, n), data in self._content.items():
             self.by_cid[hashlib.new(self.halg, data).hexdigest()] = b
             self.by_bytes[data] = (b, n)
 
     def note_cid(self, c):
-        self.by_cid.setdefault(self.cid_hex(c), c)
+        h = self.cid_hex(c)
+        if h not in self.by_cid:
+            self.__dict__.setdefault("_noted", {})[h] = c
+            self.by_cid[h] = c
 
     # -- inverse maps used by the extractor
     def pid_tokens(self, known):
